@@ -929,6 +929,7 @@ class QuicConnection:
                     self._is_client
                     and epoch in (tls.Epoch.HANDSHAKE, tls.Epoch.ONE_RTT)
                     and not self._crypto_retransmitted
+                    and not self._handshake_complete
                 ):
                     self._loss.reschedule_data(now=now)
                     self._crypto_retransmitted = True
